@@ -74,6 +74,22 @@ def apply_move(cfg, rng, tree, tree_dist):
         from phyclone.mcmc import ParticleGibbsTreeSampler
 
         kernel = make_kernel(cfg, rng, tree_dist)
+        if cfg.get("warm_other_alpha"):
+            # library use across a concentration change: the SAME kernel object first makes updates under another
+            # alpha (filling every memo), then alpha is assigned in place; nothing is cleared in between
+            import numpy as np
+            from phyclone.tree import Tree
+
+            alpha = tree_dist.prior.alpha
+            tree_dist.prior.alpha = cfg["warm_other_alpha"]
+            wrng = np.random.default_rng(17)
+            kernel._rng = wrng
+            warm = ParticleGibbsTreeSampler(kernel, wrng, num_particles=4, resample_threshold=0.5)
+            wt = Tree.get_single_node_tree(config_data(cfg))
+            for _ in range(4):
+                wt = warm.sample_tree(wt)
+            tree_dist.prior.alpha = alpha
+            kernel._rng = rng
         return ParticleGibbsTreeSampler(kernel, rng, num_particles=cfg.get("N", 2), resample_threshold=cfg.get("threshold", 0.5)).sample_tree(tree)
     if move == "dp":
         from phyclone.mcmc import DataPointSampler
